@@ -159,6 +159,74 @@ Proof.
     rewrite Nat.mod_add by lia. reflexivity.
 Qed.
 
+Lemma nth_map_lt A B (f : A -> B) (l : list A) : forall i da db,
+  (i < length l)%nat -> nth i (map f l) db = f (nth i l da).
+Proof.
+  induction l as [|a l IH]; intros [|i] da db H; cbn in *; try lia; [reflexivity|].
+  apply IH. lia.
+Qed.
+
+Lemma map_fst_combine_c13 A B : forall (a : list A) (b : list B),
+  length a = length b -> map fst (combine a b) = a.
+Proof.
+  induction a as [|x a IH]; intros [|y b] H; cbn in *; try lia; [reflexivity|].
+  f_equal. apply IH. lia.
+Qed.
+
+Lemma map_snd_combine_c13 A B : forall (a : list A) (b : list B),
+  length a = length b -> map snd (combine a b) = b.
+Proof.
+  induction a as [|x a IH]; intros [|y b] H; cbn in *; try lia; [reflexivity|].
+  f_equal. apply IH. lia.
+Qed.
+
+(* ---- series vocabulary ------------------------------------------------------------------------- *)
+(* the time point of observation i *)
+Definition time_at (s : series) (i : nat) : Z := nth i (sindex s) 0.
+(* the value of observation i *)
+Definition val_at (s : series) (i : nat) : Q := nth i (svals s) 0%Q.
+
+Lemma sindex_length (s : series) : length (sindex s) = length s.
+Proof. apply map_length. Qed.
+Lemma svals_length (s : series) : length (svals s) = length s.
+Proof. apply map_length. Qed.
+
+Lemma contiguous_length start vals : length (contiguous start vals) = length vals.
+Proof. unfold contiguous. rewrite combine_length, times_from_length. lia. Qed.
+Lemma contiguous_index start vals : sindex (contiguous start vals) = times_from start (length vals).
+Proof. apply map_fst_combine_c13. apply times_from_length. Qed.
+Lemma contiguous_vals start vals : svals (contiguous start vals) = vals.
+Proof. apply map_snd_combine_c13. apply times_from_length. Qed.
+Lemma contiguous_time_at start vals i : (i < length vals)%nat ->
+  time_at (contiguous start vals) i = start + Z.of_nat i.
+Proof. intro H. unfold time_at. rewrite contiguous_index. apply times_from_nth. exact H. Qed.
+Lemma contiguous_start start vals : vals <> [] -> sstart (contiguous start vals) = start.
+Proof.
+  intro H. unfold sstart. rewrite contiguous_index. destruct vals; [congruence|reflexivity].
+Qed.
+
+Lemma shift_index k s : sindex (shift_series k s) = map (fun t => t + k) (sindex s).
+Proof. unfold sindex, shift_series. rewrite !map_map. reflexivity. Qed.
+Lemma shift_vals k s : svals (shift_series k s) = svals s.
+Proof. unfold svals, shift_series. rewrite map_map. reflexivity. Qed.
+Lemma shift_length k s : length (shift_series k s) = length s.
+Proof. apply map_length. Qed.
+Lemma shift_start k s : s <> [] -> sstart (shift_series k s) = sstart s + k.
+Proof. intro H. destruct s as [|[t x] s]; [congruence|reflexivity]. Qed.
+Lemma shift_time_at k s i : (i < length s)%nat ->
+  time_at (shift_series k s) i = time_at s i + k.
+Proof.
+  intro H. unfold time_at. rewrite shift_index.
+  apply (nth_map_lt _ _ (fun t => t + k)). rewrite sindex_length. exact H.
+Qed.
+
+(* two series are the same observations: identical index, values equal as rationals *)
+Definition seq_eq (a b : series) : Prop :=
+  sindex a = sindex b /\ Forall2 Qeq (svals a) (svals b).
+
+Lemma seq_eq_index a b : seq_eq a b -> sindex a = sindex b.
+Proof. intros [H _]. exact H. Qed.
+
 (* ---- Deseasonalizer: alignment ----------------------------------------------------------------- *)
 Definition wf (d : dstate) : Prop :=
   0 < d_sp d /\ Z.of_nat (length (d_seasonal d)) = d_sp d.
@@ -166,27 +234,78 @@ Definition wf (d : dstate) : Prop :=
 Lemma wf_nonempty d : wf d -> d_seasonal d <> [].
 Proof. intros [H1 H2] E. rewrite E in H2. cbn in H2. lia. Qed.
 
-Lemma align_length d s : wf d -> length (align_seasonal d s) = length (svals s).
+Lemma align_length d s : length (align_seasonal d s) = length s.
+Proof. unfold align_seasonal. rewrite !map_length. apply sindex_length. Qed.
+
+(* the array handed to _transform holds, at position i, the component of the time point of
+   observation i - whether or not the index is contiguous *)
+Lemma align_nth d s i : (i < length s)%nat ->
+  nth i (align_seasonal d s) 0%Q = comp_at (d_seasonal d) (d_t0 d) (d_sp d) (time_at s i).
 Proof.
-  intro W. unfold align_seasonal, np_resize.
-  rewrite cycle_fill_length.
-  - unfold slen, svals. lia.
-  - intro E. apply (wf_nonempty d W).
-    destruct (d_seasonal d) eqn:Es; [reflexivity|].
-    apply (f_equal (@length Q)) in E. rewrite np_roll_length in E. cbn in E. lia.
+  intro Hi. unfold align_seasonal, comp_at, time_at.
+  rewrite (nth_map_lt _ _ _ _ i 0) by (rewrite map_length, sindex_length; exact Hi).
+  rewrite (nth_map_lt _ _ _ _ i 0) by (rewrite sindex_length; exact Hi).
+  reflexivity.
 Qed.
 
-(* the array handed to _transform holds, at position i, the component of time start + i *)
-Lemma align_nth d s i : wf d -> (i < length (svals s))%nat ->
-  nth i (align_seasonal d s) 0%Q =
-  comp_at (d_seasonal d) (d_t0 d) (d_sp d) (sstart s + Z.of_nat i).
+Lemma des_after_update d zs : des_after des_update d zs = d.
+Proof. unfold des_after. induction zs as [|z zs IH]; cbn [fold_left]; [reflexivity|exact IH]. Qed.
+
+Lemma phase_range t0 sp t : 0 < sp -> 0 <= phase t0 sp t < sp.
+Proof. intro H. unfold phase. apply Z.mod_pos_bound. exact H. Qed.
+
+(* seasonal_phase_only_mod_sp: s is ANY series - any start, contiguous or gapped *)
+Lemma seasonal_phase_only_mod_sp decompose sp m y zs s i :
+  (i < length s)%nat ->
+  nth i (align_seasonal (des_after des_update (des_fit decompose sp m y) zs) s) 0%Q =
+  zn (decompose m sp (svals y)) ((time_at s i - sstart y) mod sp).
+Proof. intro Hi. rewrite des_after_update. rewrite align_nth by assumption. reflexivity. Qed.
+
+(* two time points in the same position modulo sp get the same component, whatever stretches they
+   are part of and whatever update histories precede the two calls *)
+Lemma same_phase_same_component decompose sp m y zs zs' s s' i i' :
+  (i < length s)%nat -> (i' < length s')%nat ->
+  time_at s i mod sp = time_at s' i' mod sp ->
+  nth i (align_seasonal (des_after des_update (des_fit decompose sp m y) zs) s) 0%Q =
+  nth i' (align_seasonal (des_after des_update (des_fit decompose sp m y) zs') s') 0%Q.
+Proof.
+  intros Hi Hi' E. rewrite !seasonal_phase_only_mod_sp by assumption.
+  f_equal. rewrite (Zminus_mod (time_at s i)), (Zminus_mod (time_at s' i')).
+  rewrite E. reflexivity.
+Qed.
+
+(* HISTORICAL (before fix 79cabe3): update() re-based the reference on the update batch; that
+   variant violates the statement *)
+Lemma rebased_update_refuted :
+  exists decompose sp m y zs s i,
+    wf (des_fit decompose sp m y) /\ (i < length s)%nat /\
+    ~ nth i (align_seasonal (des_after des_update_rebased (des_fit decompose sp m y) zs) s) 0%Q
+      == zn (decompose m sp (svals y)) ((time_at s i - sstart y) mod sp).
+Proof.
+  exists (fun _ _ _ => [1; 2; 3]%Q), 3, Additive, (contiguous 0 [5; 6; 7; 5; 6; 7]%Q),
+         [contiguous 7 [5; 6]%Q], (contiguous 9 [1; 1]%Q), 0%nat.
+  split; [split; [cbn; lia|reflexivity]|]. split; [cbn; lia|].
+  vm_compute. discriminate.
+Qed.
+
+(* HISTORICAL (before fix 16caac4): roll the seasonal vector to the phase of the FIRST time point
+   and tile it.  On a contiguous index that is the same array ... *)
+Lemma roll_tile_contiguous d start vals i : wf d -> (i < length vals)%nat ->
+  nth i (align_roll_tile d (contiguous start vals)) 0%Q =
+  nth i (align_seasonal d (contiguous start vals)) 0%Q.
 Proof.
   intros W Hi. pose proof W as [Hsp HL]. pose proof (wf_nonempty d W) as Hne.
-  unfold align_seasonal.
-  assert (Hrne : np_roll (d_seasonal d) (align_shift (sstart s) (d_t0 d) (d_sp d)) <> []).
+  rewrite align_nth by (rewrite contiguous_length; exact Hi).
+  rewrite contiguous_time_at by exact Hi.
+  unfold align_roll_tile.
+  assert (Hv : vals <> []) by (destruct vals; [cbn in Hi; lia|discriminate]).
+  rewrite contiguous_start by exact Hv.
+  unfold slen. rewrite contiguous_length.
+  set (sh := (- get_duration start (d_t0 d)) mod d_sp d).
+  assert (Hrne : np_roll (d_seasonal d) sh <> []).
   { intro E. apply (f_equal (@length Q)) in E. rewrite np_roll_length in E.
     cbn in E. lia. }
-  rewrite np_resize_nth by (try assumption; unfold slen, svals in *; lia).
+  rewrite np_resize_nth by (try assumption; lia).
   rewrite np_roll_length.
   assert (Hlpos : (0 < length (d_seasonal d))%nat) by lia.
   rewrite np_roll_nth by (apply Nat.mod_upper_bound; lia).
@@ -194,110 +313,84 @@ Proof.
   rewrite HL.
   assert (Hm : Z.of_nat (i mod length (d_seasonal d)) = Z.of_nat i mod d_sp d).
   { rewrite <- HL. apply Nat2Z.inj_mod. }
-  rewrite Hm. unfold align_shift, get_duration.
+  rewrite Hm. unfold sh, get_duration.
   rewrite Zminus_mod_idemp_l.
   rewrite Zminus_mod_idemp_r.
   f_equal. lia.
 Qed.
 
-Lemma des_after_update d zs : des_after des_update d zs = d.
-Proof. unfold des_after. induction zs as [|z zs IH]; cbn [fold_left]; [reflexivity|exact IH]. Qed.
-
-(* seasonal_phase_only_mod_sp *)
-Lemma seasonal_phase_only_mod_sp decompose sp m y zs s i :
-  wf (des_fit decompose sp m y) -> (i < length (svals s))%nat ->
-  nth i (align_seasonal (des_after des_update (des_fit decompose sp m y) zs) s) 0%Q =
-  zn (decompose m sp (svals y)) ((sstart s + Z.of_nat i - sstart y) mod sp).
+(* ... but on a gapped index every point after the first gap gets the component of the wrong
+   season: the roll-and-tile variant violates the statement *)
+Lemma roll_tile_gapped_refuted :
+  exists d s i, wf d /\ (i < length s)%nat /\
+    ~ nth i (align_roll_tile d s) 0%Q
+      == comp_at (d_seasonal d) (d_t0 d) (d_sp d) (time_at s i).
 Proof.
-  intros W Hi. rewrite des_after_update. rewrite align_nth by assumption. reflexivity.
-Qed.
-
-(* two time points in the same position modulo sp get the same component, whatever stretches they
-   are part of and whatever update histories precede the two calls *)
-Lemma same_phase_same_component decompose sp m y zs zs' s s' i i' :
-  wf (des_fit decompose sp m y) ->
-  (i < length (svals s))%nat -> (i' < length (svals s'))%nat ->
-  (sstart s + Z.of_nat i) mod sp = (sstart s' + Z.of_nat i') mod sp ->
-  nth i (align_seasonal (des_after des_update (des_fit decompose sp m y) zs) s) 0%Q =
-  nth i' (align_seasonal (des_after des_update (des_fit decompose sp m y) zs') s') 0%Q.
-Proof.
-  intros W Hi Hi' E. rewrite !seasonal_phase_only_mod_sp by assumption.
-  f_equal. rewrite (Zminus_mod (sstart s + Z.of_nat i)), (Zminus_mod (sstart s' + Z.of_nat i')).
-  rewrite E. reflexivity.
-Qed.
-
-(* the variant that re-bases the reference on the update batch violates the statement *)
-Lemma rebased_update_refuted :
-  exists decompose sp m y zs s i,
-    wf (des_fit decompose sp m y) /\ (i < length (svals s))%nat /\
-    ~ nth i (align_seasonal (des_after des_update_rebased (des_fit decompose sp m y) zs) s) 0%Q
-      == zn (decompose m sp (svals y)) ((sstart s + Z.of_nat i - sstart y) mod sp).
-Proof.
-  exists (fun _ _ _ => [1; 2; 3]%Q), 3, Additive, (0, [5; 6; 7; 5; 6; 7]%Q),
-         [(7, [5; 6]%Q)], (9, [1; 1]%Q), 0%nat.
+  exists {| d_sp := 3; d_model := Additive; d_t0 := 0; d_seasonal := [1; 2; 3]%Q |},
+         [(6, 0%Q); (8, 0%Q)], 1%nat.
   split; [split; [cbn; lia|reflexivity]|]. split; [cbn; lia|].
   vm_compute. discriminate.
 Qed.
 
 (* ---- series (op) array ------------------------------------------------------------------------- *)
-Definition seq_eq (a b : series) : Prop :=
-  sstart a = sstart b /\ Forall2 Qeq (svals a) (svals b).
-
-Lemma sindex_eq a b : sstart a = sstart b -> length (svals a) = length (svals b) ->
-  sindex a = sindex b.
-Proof. unfold sindex, sstart, svals. intros -> ->. reflexivity. Qed.
-
-Lemma seq_eq_index a b : seq_eq a b -> sindex a = sindex b.
+Lemma arr_op_index f s : forall arr, length arr = length s ->
+  sindex (series_arr_op f s arr) = sindex s.
 Proof.
-  intros [H1 H2]. apply sindex_eq; [exact H1|]. apply Forall2_Qeq_length; exact H2.
+  induction s as [|[t x] s IH]; intros [|c arr] H; cbn in *; try lia; try reflexivity.
+  f_equal. apply IH. lia.
 Qed.
 
-Lemma arr_op_length f s arr : length arr = length (svals s) ->
-  length (svals (series_arr_op f s arr)) = length (svals s).
-Proof. intro H. unfold series_arr_op, svals. cbn [snd]. apply zip_with_length. exact H. Qed.
+Lemma arr_op_length f s : forall arr, length arr = length s ->
+  length (series_arr_op f s arr) = length s.
+Proof.
+  induction s as [|[t x] s IH]; intros [|c arr] H; cbn in *; try lia; try reflexivity.
+  f_equal. apply IH. lia.
+Qed.
 
-Lemma arr_op_nth f s arr i : length arr = length (svals s) -> (i < length (svals s))%nat ->
+Lemma arr_op_nth f s : forall arr i, length arr = length s -> (i < length s)%nat ->
   nth i (svals (series_arr_op f s arr)) 0%Q = f (nth i (svals s) 0%Q) (nth i arr 0%Q).
 Proof.
-  intros H Hi. unfold series_arr_op, svals. cbn [snd]. apply zip_with_nth; [exact Hi|].
-  rewrite H. exact Hi.
+  induction s as [|[t x] s IH]; intros [|c arr] i H Hi; cbn in *; try lia.
+  destruct i as [|i]; [reflexivity|]. apply IH; lia.
+Qed.
+
+Lemma arr_op_shift f k s : forall arr,
+  series_arr_op f (shift_series k s) arr = shift_series k (series_arr_op f s arr).
+Proof.
+  induction s as [|[t x] s IH]; intros [|c arr]; cbn in *; try reflexivity.
+  f_equal. apply IH.
 Qed.
 
 (* ---- Deseasonalizer: transform / inverse ------------------------------------------------------- *)
-Lemma des_transform_start d s : sstart (des_transform d s) = sstart s.
-Proof. reflexivity. Qed.
-Lemma des_inverse_start d s : sstart (des_inverse d s) = sstart s.
-Proof. reflexivity. Qed.
-Lemma des_transform_length d s : wf d ->
-  length (svals (des_transform d s)) = length (svals s).
-Proof. intro W. apply arr_op_length. apply align_length. exact W. Qed.
-Lemma des_inverse_length d s : wf d ->
-  length (svals (des_inverse d s)) = length (svals s).
-Proof. intro W. apply arr_op_length. apply align_length. exact W. Qed.
+Lemma des_transform_length d s : length (des_transform d s) = length s.
+Proof. apply arr_op_length. apply align_length. Qed.
+Lemma des_inverse_length d s : length (des_inverse d s) = length s.
+Proof. apply arr_op_length. apply align_length. Qed.
 
-Lemma des_index_preserved d s : wf d ->
+Lemma des_index_preserved d s :
   sindex (des_transform d s) = sindex s /\ sindex (des_inverse d s) = sindex s.
-Proof.
-  intro W. split; apply sindex_eq; try reflexivity.
-  - apply des_transform_length; exact W.
-  - apply des_inverse_length; exact W.
-Qed.
+Proof. split; apply arr_op_index; apply align_length. Qed.
+
+Lemma des_transform_time_at d s i : time_at (des_transform d s) i = time_at s i.
+Proof. unfold time_at. rewrite (proj1 (des_index_preserved d s)). reflexivity. Qed.
+Lemma des_inverse_time_at d s i : time_at (des_inverse d s) i = time_at s i.
+Proof. unfold time_at. rewrite (proj2 (des_index_preserved d s)). reflexivity. Qed.
 
 (* what transform computes at position i: the value (op) the component of ITS time point *)
-Lemma des_transform_nth d s i : wf d -> (i < length (svals s))%nat ->
-  nth i (svals (des_transform d s)) 0%Q =
-  op_fwd (d_model d) (nth i (svals s) 0%Q)
-         (comp_at (d_seasonal d) (d_t0 d) (d_sp d) (sstart s + Z.of_nat i)).
+Lemma des_transform_nth d s i : (i < length s)%nat ->
+  val_at (des_transform d s) i =
+  op_fwd (d_model d) (val_at s i) (comp_at (d_seasonal d) (d_t0 d) (d_sp d) (time_at s i)).
 Proof.
-  intros W Hi. unfold des_transform. rewrite arr_op_nth by (try apply align_length; assumption).
+  intros Hi. unfold des_transform, val_at.
+  rewrite arr_op_nth by (try apply align_length; assumption).
   rewrite align_nth by assumption. reflexivity.
 Qed.
-Lemma des_inverse_nth d s i : wf d -> (i < length (svals s))%nat ->
-  nth i (svals (des_inverse d s)) 0%Q =
-  op_inv (d_model d) (nth i (svals s) 0%Q)
-         (comp_at (d_seasonal d) (d_t0 d) (d_sp d) (sstart s + Z.of_nat i)).
+Lemma des_inverse_nth d s i : (i < length s)%nat ->
+  val_at (des_inverse d s) i =
+  op_inv (d_model d) (val_at s i) (comp_at (d_seasonal d) (d_t0 d) (d_sp d) (time_at s i)).
 Proof.
-  intros W Hi. unfold des_inverse. rewrite arr_op_nth by (try apply align_length; assumption).
+  intros Hi. unfold des_inverse, val_at.
+  rewrite arr_op_nth by (try apply align_length; assumption).
   rewrite align_nth by assumption. reflexivity.
 Qed.
 
@@ -314,26 +407,27 @@ Proof.
   - destruct H as [H|H]; [discriminate|]. field. exact H.
 Qed.
 
-(* inverse_transform(transform(z))[i] == z[i] wherever the divisor is non-zero *)
-Lemma des_roundtrip_at d s i : wf d -> (i < length (svals s))%nat ->
+(* inverse_transform(transform(z))[i] == z[i] wherever the divisor is non-zero (= wherever
+   transform(z)[i] is finite) *)
+Lemma des_roundtrip_at d s i : (i < length s)%nat ->
   (d_model d = Additive \/
-   ~ comp_at (d_seasonal d) (d_t0 d) (d_sp d) (sstart s + Z.of_nat i) == 0)%Q ->
-  (nth i (svals (des_inverse d (des_transform d s))) 0 == nth i (svals s) 0)%Q.
+   ~ comp_at (d_seasonal d) (d_t0 d) (d_sp d) (time_at s i) == 0)%Q ->
+  (val_at (des_inverse d (des_transform d s)) i == val_at s i)%Q.
 Proof.
-  intros W Hi Hc.
-  rewrite des_inverse_nth by (try rewrite des_transform_length; assumption).
-  rewrite des_transform_start, des_transform_nth by assumption.
+  intros Hi Hc.
+  rewrite des_inverse_nth by (rewrite des_transform_length; assumption).
+  rewrite des_transform_time_at, des_transform_nth by assumption.
   apply op_roundtrip. exact Hc.
 Qed.
 (* and the other way round: transform(inverse_transform(z)) *)
-Lemma des_roundtrip_at' d s i : wf d -> (i < length (svals s))%nat ->
+Lemma des_roundtrip_at' d s i : (i < length s)%nat ->
   (d_model d = Additive \/
-   ~ comp_at (d_seasonal d) (d_t0 d) (d_sp d) (sstart s + Z.of_nat i) == 0)%Q ->
-  (nth i (svals (des_transform d (des_inverse d s))) 0 == nth i (svals s) 0)%Q.
+   ~ comp_at (d_seasonal d) (d_t0 d) (d_sp d) (time_at s i) == 0)%Q ->
+  (val_at (des_transform d (des_inverse d s)) i == val_at s i)%Q.
 Proof.
-  intros W Hi Hc.
-  rewrite des_transform_nth by (try rewrite des_inverse_length; assumption).
-  rewrite des_inverse_start, des_inverse_nth by assumption.
+  intros Hi Hc.
+  rewrite des_transform_nth by (rewrite des_inverse_length; assumption).
+  rewrite des_inverse_time_at, des_inverse_nth by assumption.
   apply op_roundtrip'. exact Hc.
 Qed.
 
@@ -342,11 +436,10 @@ Proof. intro H. unfold zn. apply nth_In. lia. Qed.
 
 Lemma comp_in d t : wf d -> In (comp_at (d_seasonal d) (d_t0 d) (d_sp d) t) (d_seasonal d).
 Proof.
-  intros [Hsp HL]. unfold comp_at, phase. apply zn_in. rewrite HL.
-  apply Z.mod_pos_bound. exact Hsp.
+  intros [Hsp HL]. unfold comp_at. apply zn_in. rewrite HL. apply phase_range. exact Hsp.
 Qed.
 
-(* whole-series form, for the state after ANY update history *)
+(* whole-series form, for the state after ANY update history, for ANY stretch s *)
 Lemma des_roundtrip decompose sp m y zs s :
   let d := des_after des_update (des_fit decompose sp m y) zs in
   wf (des_fit decompose sp m y) ->
@@ -356,34 +449,39 @@ Proof.
   intros d W Hc. unfold d. rewrite des_after_update.
   set (d0 := des_fit decompose sp m y) in *.
   split; [split|].
-  - reflexivity.
+  - rewrite (proj2 (des_index_preserved d0 _)). apply des_index_preserved.
   - apply Forall2_Qeq_nth.
-    + rewrite des_inverse_length, des_transform_length by assumption. reflexivity.
-    + intros i Hi. rewrite des_inverse_length, des_transform_length in Hi by assumption.
+    + rewrite !svals_length, des_inverse_length, des_transform_length. reflexivity.
+    + intros i Hi. rewrite svals_length, des_inverse_length, des_transform_length in Hi.
       apply des_roundtrip_at; try assumption.
       destruct Hc as [Hc|Hc]; [left; exact Hc|right].
       rewrite Forall_forall in Hc. apply Hc. apply (comp_in d0). exact W.
-  - apply des_index_preserved. exact W.
+  - apply des_index_preserved.
 Qed.
 
 (* fit keeps the FIRST period of the decomposition's seasonal series S (periodic, as long as the
-   training series): on the training series itself, transform removes exactly S *)
-Lemma training_component (S : list Q) sp m y i :
+   training series): on the (contiguous) training series itself, transform removes exactly S *)
+Lemma training_component (S : list Q) sp m t0 vals i :
   0 < sp -> (Z.to_nat sp <= length S)%nat ->
   (forall j, (j < length S)%nat -> nth j S 0%Q = nth (j mod Z.to_nat sp)%nat S 0%Q) ->
-  length S = length (svals y) -> (i < length (svals y))%nat ->
+  length S = length vals -> (i < length vals)%nat ->
+  let y := contiguous t0 vals in
   let d := {| d_sp := sp; d_model := m; d_t0 := sstart y;
               d_seasonal := firstn (Z.to_nat sp) S |} in
   wf d /\
-  nth i (svals (des_transform d y)) 0%Q = op_fwd m (nth i (svals y) 0%Q) (nth i S 0%Q).
+  val_at (des_transform d y) i = op_fwd m (nth i vals 0%Q) (nth i S 0%Q).
 Proof.
-  intros Hsp HS Hper HL Hi d.
+  intros Hsp HS Hper HL Hi y d.
   assert (W : wf d).
   { split; cbn [d d_sp d_seasonal]; [exact Hsp|]. rewrite firstn_length. lia. }
   split; [exact W|].
-  rewrite des_transform_nth by assumption. cbn [d d_model d_seasonal d_t0 d_sp].
-  f_equal. unfold comp_at, zn, phase.
-  replace (sstart y + Z.of_nat i - sstart y) with (Z.of_nat i) by lia.
+  assert (Hv : vals <> []) by (destruct vals; [cbn in Hi; lia|discriminate]).
+  rewrite des_transform_nth by (unfold y; rewrite contiguous_length; exact Hi).
+  cbn [d d_model d_seasonal d_t0 d_sp].
+  unfold y at 1, val_at. rewrite contiguous_vals.
+  f_equal. unfold comp_at, zn, phase, get_duration, y.
+  rewrite contiguous_time_at by exact Hi. rewrite contiguous_start by exact Hv.
+  replace (t0 + Z.of_nat i - t0) with (Z.of_nat i) by lia.
   assert (Hnz : Z.to_nat sp <> 0%nat) by lia.
   assert (E : Z.to_nat (Z.of_nat i mod sp) = (i mod Z.to_nat sp)%nat).
   { rewrite <- (Z2Nat.id sp) at 1 by lia. rewrite <- Nat2Z.inj_mod. apply Nat2Z.id. }
@@ -411,57 +509,61 @@ Lemma cond_passthrough test decompose sp m y s :
   seq_eq (des_transform d s) s /\ seq_eq (des_inverse d s) s.
 Proof.
   intros Hsp Ht d.
-  assert (W : wf d).
-  { unfold d, cond_fit. rewrite Ht. split; cbn [d_sp d_seasonal]; [assumption|].
-    rewrite repeat_length. lia. }
   assert (Hcomp : forall t, comp_at (d_seasonal d) (d_t0 d) (d_sp d) t = neutral m).
   { intro t. unfold d, cond_fit. rewrite Ht. cbn [d_seasonal d_t0 d_sp].
-    unfold comp_at, zn, phase. apply nth_repeat_lt.
-    pose proof (Z.mod_pos_bound (t - sstart y) sp Hsp). lia. }
+    unfold comp_at, zn. apply nth_repeat_lt.
+    pose proof (phase_range (sstart y) sp t Hsp). lia. }
   assert (Hm : d_model d = m) by (unfold d, cond_fit; rewrite Ht; reflexivity).
-  split; (split; [reflexivity|]); apply Forall2_Qeq_nth.
-  - apply des_transform_length; exact W.
-  - intros i Hi. rewrite des_transform_length in Hi by exact W.
+  split; (split; [apply des_index_preserved|]); apply Forall2_Qeq_nth.
+  - rewrite !svals_length. apply des_transform_length.
+  - intros i Hi. rewrite svals_length, des_transform_length in Hi.
+    change (val_at (des_transform d s) i == val_at s i)%Q.
     rewrite des_transform_nth, Hcomp, Hm by assumption.
     destruct m; cbn [op_fwd neutral]; field.
-  - apply des_inverse_length; exact W.
-  - intros i Hi. rewrite des_inverse_length in Hi by exact W.
+  - rewrite !svals_length. apply des_inverse_length.
+  - intros i Hi. rewrite svals_length, des_inverse_length in Hi.
+    change (val_at (des_inverse d s) i == val_at s i)%Q.
     rewrite des_inverse_nth, Hcomp, Hm by assumption.
     destruct m; cbn [op_inv neutral]; ring.
 Qed.
 
 (* ---- Detrender --------------------------------------------------------------------------------- *)
-Lemma predict_at_length trend s : length (predict_at trend (sindex s)) = length (svals s).
-Proof. unfold predict_at, sindex. rewrite map_length, times_from_length. reflexivity. Qed.
+Lemma predict_at_length trend s : length (predict_at trend (sindex s)) = length s.
+Proof. unfold predict_at. rewrite map_length. apply sindex_length. Qed.
 
-Lemma predict_at_nth trend s i : (i < length (svals s))%nat ->
-  nth i (predict_at trend (sindex s)) 0%Q = trend (sstart s + Z.of_nat i).
+Lemma predict_at_nth trend s i : (i < length s)%nat ->
+  nth i (predict_at trend (sindex s)) 0%Q = trend (time_at s i).
 Proof.
-  intro Hi. unfold predict_at, sindex.
-  rewrite (nth_indep _ 0%Q (trend 0)) by (rewrite map_length, times_from_length; exact Hi).
-  rewrite map_nth. rewrite times_from_nth by exact Hi. reflexivity.
+  intro Hi. unfold predict_at, time_at. apply nth_map_lt. rewrite sindex_length. exact Hi.
 Qed.
 
-(* the trend removed from observation i is the forecast for the time point of observation i of
-   the PASSED series *)
-Lemma det_transform_nth trend s i : (i < length (svals s))%nat ->
-  nth i (svals (det_transform trend s)) 0%Q =
-  (nth i (svals s) 0 - trend (sstart s + Z.of_nat i)%Z)%Q.
+(* the trend removed from observation i is the forecast for the TIME POINT of observation i of
+   the PASSED series (not for its position, not for a time point of the training series) *)
+Lemma det_transform_nth trend s i : (i < length s)%nat ->
+  val_at (det_transform trend s) i = (val_at s i - trend (time_at s i))%Q.
 Proof.
-  intro Hi. unfold det_transform. rewrite arr_op_nth by (try apply predict_at_length; exact Hi).
+  intro Hi. unfold det_transform, val_at.
+  rewrite arr_op_nth by (try apply predict_at_length; exact Hi).
   rewrite predict_at_nth by exact Hi. reflexivity.
 Qed.
-Lemma det_inverse_nth trend s i : (i < length (svals s))%nat ->
-  nth i (svals (det_inverse trend s)) 0%Q =
-  (nth i (svals s) 0 + trend (sstart s + Z.of_nat i)%Z)%Q.
+Lemma det_inverse_nth trend s i : (i < length s)%nat ->
+  val_at (det_inverse trend s) i = (val_at s i + trend (time_at s i))%Q.
 Proof.
-  intro Hi. unfold det_inverse. rewrite arr_op_nth by (try apply predict_at_length; exact Hi).
+  intro Hi. unfold det_inverse, val_at.
+  rewrite arr_op_nth by (try apply predict_at_length; exact Hi).
   rewrite predict_at_nth by exact Hi. reflexivity.
 Qed.
-Lemma det_transform_length trend s : length (svals (det_transform trend s)) = length (svals s).
+Lemma det_transform_length trend s : length (det_transform trend s) = length s.
 Proof. apply arr_op_length. apply predict_at_length. Qed.
-Lemma det_inverse_length trend s : length (svals (det_inverse trend s)) = length (svals s).
+Lemma det_inverse_length trend s : length (det_inverse trend s) = length s.
 Proof. apply arr_op_length. apply predict_at_length. Qed.
+Lemma det_index_preserved trend s :
+  sindex (det_transform trend s) = sindex s /\ sindex (det_inverse trend s) = sindex s.
+Proof. split; apply arr_op_index; apply predict_at_length. Qed.
+Lemma det_transform_time_at trend s i : time_at (det_transform trend s) i = time_at s i.
+Proof. unfold time_at. rewrite (proj1 (det_index_preserved trend s)). reflexivity. Qed.
+Lemma det_inverse_time_at trend s i : time_at (det_inverse trend s) i = time_at s i.
+Proof. unfold time_at. rewrite (proj2 (det_index_preserved trend s)). reflexivity. Qed.
 
 (* for ANY trend function, i.e. for the forecaster state after any fit / update history *)
 Lemma det_roundtrip trend s :
@@ -469,33 +571,43 @@ Lemma det_roundtrip trend s :
   seq_eq (det_transform trend (det_inverse trend s)) s /\
   sindex (det_transform trend s) = sindex s /\ sindex (det_inverse trend s) = sindex s.
 Proof.
-  split; [|split; [|split]].
-  - split; [reflexivity|]. apply Forall2_Qeq_nth.
-    + rewrite det_inverse_length, det_transform_length. reflexivity.
-    + intros i Hi. rewrite det_inverse_length, det_transform_length in Hi.
-      rewrite det_inverse_nth by (rewrite det_transform_length; exact Hi).
-      rewrite det_transform_nth by exact Hi.
-      change (sstart (det_transform trend s)) with (sstart s). ring.
-  - split; [reflexivity|]. apply Forall2_Qeq_nth.
-    + rewrite det_transform_length, det_inverse_length. reflexivity.
-    + intros i Hi. rewrite det_transform_length, det_inverse_length in Hi.
-      rewrite det_transform_nth by (rewrite det_inverse_length; exact Hi).
-      rewrite det_inverse_nth by exact Hi.
-      change (sstart (det_inverse trend s)) with (sstart s). ring.
-  - apply sindex_eq; [reflexivity|apply det_transform_length].
-  - apply sindex_eq; [reflexivity|apply det_inverse_length].
+  split; [|split; [|apply det_index_preserved]].
+  - split.
+    + rewrite (proj2 (det_index_preserved trend _)). apply det_index_preserved.
+    + apply Forall2_Qeq_nth.
+      * rewrite !svals_length, det_inverse_length, det_transform_length. reflexivity.
+      * intros i Hi. rewrite svals_length, det_inverse_length, det_transform_length in Hi.
+        change (val_at (det_inverse trend (det_transform trend s)) i == val_at s i)%Q.
+        rewrite det_inverse_nth by (rewrite det_transform_length; exact Hi).
+        rewrite det_transform_nth by exact Hi.
+        rewrite det_transform_time_at. ring.
+  - split.
+    + rewrite (proj1 (det_index_preserved trend _)). apply det_index_preserved.
+    + apply Forall2_Qeq_nth.
+      * rewrite !svals_length, det_transform_length, det_inverse_length. reflexivity.
+      * intros i Hi. rewrite svals_length, det_transform_length, det_inverse_length in Hi.
+        change (val_at (det_transform trend (det_inverse trend s)) i == val_at s i)%Q.
+        rewrite det_transform_nth by (rewrite det_inverse_length; exact Hi).
+        rewrite det_inverse_nth by exact Hi.
+        rewrite det_inverse_time_at. ring.
 Qed.
 
 (* ---- pointwise, time-independent --------------------------------------------------------------- *)
+Lemma pw_index f s : sindex (pw_apply f s) = sindex s.
+Proof. unfold pw_apply, tmap, sindex. rewrite map_map. reflexivity. Qed.
+Lemma pw_vals f s : svals (pw_apply f s) = map f (svals s).
+Proof. unfold pw_apply, tmap, svals. rewrite !map_map. reflexivity. Qed.
+
 Lemma pw_roundtrip (P : Q -> Prop) f g s :
   (forall x, P x -> g (f x) == x)%Q -> Forall P (svals s) ->
   seq_eq (pw_apply g (pw_apply f s)) s /\ sindex (pw_apply f s) = sindex s.
 Proof.
-  intros H HP. split; [split; [reflexivity|]|].
-  - unfold pw_apply, svals in *. cbn [snd]. induction (snd s) as [|x l IH]; cbn [map]; constructor.
+  intros H HP. split; [split|].
+  - rewrite !pw_index. reflexivity.
+  - rewrite !pw_vals. induction (svals s) as [|x l IH]; cbn [map]; constructor.
     + apply H. inversion HP; assumption.
     + apply IH. inversion HP; assumption.
-  - apply sindex_eq; [reflexivity|]. unfold pw_apply, svals. cbn [snd]. apply map_length.
+  - apply pw_index.
 Qed.
 
 Lemma std_roundtrip m s x : (~ s == 0 -> std_inv m s (std_fwd m s x) == x)%Q.
@@ -526,12 +638,8 @@ Section LogBoxCox.
   Hypothesis pow_proper : forall a b c, (a == b -> pow a c == pow b c)%Q.
   Hypothesis pow_inv : forall x l, (0 < x -> ~ l == 0 -> pow (pow x l) (1 / l) == x)%Q.
 
-  Definition boxcox (lam x : Q) : Q :=
-    if Qeq_bool lam 0 then ln x else ((pow x lam - 1) / lam)%Q.
-  Definition inv_boxcox (lam y : Q) : Q :=
-    if Qeq_bool lam 0 then exp y else pow (lam * y + 1)%Q (1 / lam)%Q.
-
-  Lemma boxcox_roundtrip_pt lam x : (0 < x -> inv_boxcox lam (boxcox lam x) == x)%Q.
+  Lemma boxcox_roundtrip_pt lam x :
+    (0 < x -> inv_boxcox exp pow lam (boxcox ln pow lam x) == x)%Q.
   Proof.
     intro Hx. unfold inv_boxcox, boxcox. destruct (Qeq_bool lam 0) eqn:E.
     - apply exp_ln. exact Hx.
@@ -545,8 +653,8 @@ Section LogBoxCox.
   Proof. apply pw_roundtrip. exact exp_ln. Qed.
 
   Lemma boxcox_roundtrip lam s : Forall (fun x => 0 < x)%Q (svals s) ->
-    seq_eq (pw_apply (inv_boxcox lam) (pw_apply (boxcox lam) s)) s /\
-    sindex (pw_apply (boxcox lam) s) = sindex s.
+    seq_eq (pw_apply (inv_boxcox exp pow lam) (pw_apply (boxcox ln pow lam) s)) s /\
+    sindex (pw_apply (boxcox ln pow lam) s) = sindex s.
   Proof. apply pw_roundtrip. intros x Hx. apply boxcox_roundtrip_pt. exact Hx. Qed.
 End LogBoxCox.
 
@@ -562,40 +670,58 @@ Proof.
 Qed.
 
 (* ---- shifting the time index ------------------------------------------------------------------- *)
-Lemma align_shift_invariant a b sp k : align_shift (a + k) (b + k) sp = align_shift a b sp.
-Proof. unfold align_shift, get_duration. f_equal. lia. Qed.
+Lemma phase_shift_invariant t0 sp t k : phase (t0 + k) sp (t + k) = phase t0 sp t.
+Proof. unfold phase, get_duration. f_equal. lia. Qed.
 
 Definition shift_state (k : Z) (d : dstate) : dstate :=
   {| d_sp := d_sp d; d_model := d_model d; d_t0 := d_t0 d + k; d_seasonal := d_seasonal d |}.
 
-Lemma des_fit_shift decompose sp m y k :
+(* fit rejects an empty training series (check_series, allow_empty=False) *)
+Lemma des_fit_shift decompose sp m y k : y <> [] ->
   des_fit decompose sp m (shift_series k y) = shift_state k (des_fit decompose sp m y).
-Proof. reflexivity. Qed.
+Proof.
+  intro H. unfold des_fit, shift_state. cbn [d_sp d_model d_t0 d_seasonal].
+  rewrite shift_vals, shift_start by exact H. reflexivity.
+Qed.
+
+Lemma align_shift_state d s k :
+  align_seasonal (shift_state k d) (shift_series k s) = align_seasonal d s.
+Proof.
+  unfold align_seasonal, shift_state. cbn [d_sp d_t0 d_seasonal].
+  rewrite shift_index, !map_map. apply map_ext. intro t.
+  rewrite phase_shift_invariant. reflexivity.
+Qed.
 
 Lemma des_shift_state d s k :
   des_transform (shift_state k d) (shift_series k s) = shift_series k (des_transform d s) /\
   des_inverse (shift_state k d) (shift_series k s) = shift_series k (des_inverse d s).
 Proof.
-  unfold des_transform, des_inverse, series_arr_op, align_seasonal, shift_series, shift_state,
-    sstart, svals, slen.
-  cbn [fst snd d_sp d_model d_t0 d_seasonal]. rewrite align_shift_invariant. split; reflexivity.
+  unfold des_transform, des_inverse. rewrite align_shift_state.
+  change (d_model (shift_state k d)) with (d_model d).
+  split; apply arr_op_shift.
 Qed.
 
 (* fit on the shifted training series, update with the shifted batches, transform the shifted
    stretch: same values, index shifted by k *)
-Lemma des_shift_equivariant decompose sp m y zs s k :
+Lemma des_shift_equivariant decompose sp m y zs s k : y <> [] ->
   let d := des_after des_update (des_fit decompose sp m y) zs in
   let d' := des_after des_update (des_fit decompose sp m (shift_series k y))
                       (map (shift_series k) zs) in
   des_transform d' (shift_series k s) = shift_series k (des_transform d s) /\
   des_inverse d' (shift_series k s) = shift_series k (des_inverse d s).
 Proof.
-  cbv zeta. rewrite !des_after_update, des_fit_shift. apply des_shift_state.
+  intro H. cbv zeta. rewrite !des_after_update, des_fit_shift by exact H. apply des_shift_state.
 Qed.
 
-Lemma cond_fit_shift test decompose sp m y k :
+Lemma cond_fit_shift test decompose sp m y k : y <> [] ->
   cond_fit test decompose sp m (shift_series k y) = shift_state k (cond_fit test decompose sp m y).
-Proof. unfold cond_fit, svals. cbn [shift_series snd]. destruct (test sp (snd y)); reflexivity. Qed.
+Proof.
+  intro H. unfold cond_fit. rewrite shift_vals.
+  destruct (test sp (svals y)).
+  - apply des_fit_shift. exact H.
+  - unfold shift_state. cbn [d_sp d_model d_t0 d_seasonal]. rewrite shift_start by exact H.
+    reflexivity.
+Qed.
 
 Lemma det_shift_equivariant trend trend' s k :
   (forall t : Z, trend' (t + k)%Z == trend t)%Q ->
@@ -603,26 +729,33 @@ Lemma det_shift_equivariant trend trend' s k :
   seq_eq (det_inverse trend' (shift_series k s)) (shift_series k (det_inverse trend s)).
 Proof.
   intro H.
-  assert (HL : length (svals (shift_series k s)) = length (svals s)) by reflexivity.
-  split; (split; [reflexivity|]); apply Forall2_Qeq_nth.
-  - rewrite det_transform_length. cbn [shift_series svals snd].
-    symmetry. apply det_transform_length.
-  - intros i Hi. rewrite det_transform_length, HL in Hi.
-    rewrite det_transform_nth by (rewrite HL; exact Hi).
-    change (svals (shift_series k (det_transform trend s))) with (svals (det_transform trend s)).
-    rewrite det_transform_nth by exact Hi.
-    cbn [shift_series sstart svals fst snd].
-    replace (fst s + k + Z.of_nat i) with (fst s + Z.of_nat i + k) by lia.
-    rewrite H. reflexivity.
-  - rewrite det_inverse_length. cbn [shift_series svals snd].
-    symmetry. apply det_inverse_length.
-  - intros i Hi. rewrite det_inverse_length, HL in Hi.
-    rewrite det_inverse_nth by (rewrite HL; exact Hi).
-    change (svals (shift_series k (det_inverse trend s))) with (svals (det_inverse trend s)).
-    rewrite det_inverse_nth by exact Hi.
-    cbn [shift_series sstart svals fst snd].
-    replace (fst s + k + Z.of_nat i) with (fst s + Z.of_nat i + k) by lia.
-    rewrite H. reflexivity.
+  split; split.
+  - rewrite (proj1 (det_index_preserved _ _)), !shift_index,
+      (proj1 (det_index_preserved _ _)). reflexivity.
+  - apply Forall2_Qeq_nth.
+    + rewrite !svals_length, det_transform_length, !shift_length, det_transform_length.
+      reflexivity.
+    + intros i Hi. rewrite svals_length, det_transform_length, shift_length in Hi.
+      rewrite shift_vals.
+      change (val_at (det_transform trend' (shift_series k s)) i ==
+              val_at (det_transform trend s) i)%Q.
+      rewrite det_transform_nth by (rewrite shift_length; exact Hi).
+      rewrite det_transform_nth by exact Hi.
+      rewrite shift_time_at by exact Hi. unfold val_at. rewrite shift_vals.
+      rewrite H. reflexivity.
+  - rewrite (proj2 (det_index_preserved _ _)), !shift_index,
+      (proj2 (det_index_preserved _ _)). reflexivity.
+  - apply Forall2_Qeq_nth.
+    + rewrite !svals_length, det_inverse_length, !shift_length, det_inverse_length.
+      reflexivity.
+    + intros i Hi. rewrite svals_length, det_inverse_length, shift_length in Hi.
+      rewrite shift_vals.
+      change (val_at (det_inverse trend' (shift_series k s)) i ==
+              val_at (det_inverse trend s) i)%Q.
+      rewrite det_inverse_nth by (rewrite shift_length; exact Hi).
+      rewrite det_inverse_nth by exact Hi.
+      rewrite shift_time_at by exact Hi. unfold val_at. rewrite shift_vals.
+      rewrite H. reflexivity.
 Qed.
 
 (* the polynomial trend forecaster is a shift-invariant oracle: its coefficients depend on the
@@ -631,38 +764,52 @@ Lemma poly_trend_shift coef t0 t k : poly_trend coef (t0 + k) (t + k) = poly_tre
 Proof. unfold poly_trend. f_equal. f_equal. lia. Qed.
 
 Lemma pw_shift_equivariant f s k : pw_apply f (shift_series k s) = shift_series k (pw_apply f s).
-Proof. reflexivity. Qed.
+Proof. unfold pw_apply, tmap, shift_series. rewrite !map_map. reflexivity. Qed.
 
 Lemma opt_shift_equivariant b (f f' : series -> series) s k :
   f' (shift_series k s) = shift_series k (f s) ->
   opt_apply b f' (shift_series k s) = shift_series k (opt_apply b f s).
 Proof. intro H. destruct b; cbn [opt_apply]; [reflexivity|exact H]. Qed.
 
+Lemma combine_map_l_c13 A B C (f : A -> C) : forall (a : list A) (b : list B),
+  combine (map f a) b = map (fun p => (f (fst p), snd p)) (combine a b).
+Proof.
+  induction a as [|x a IH]; intros [|y b]; cbn; try reflexivity. f_equal. apply IH.
+Qed.
+
 Lemma positional_shift g s k :
   positional_same_index g (shift_series k s) = shift_series k (positional_same_index g s) /\
   positional_lag_index g (shift_series k s) = positional_lag_index g s.
-Proof. split; reflexivity. Qed.
+Proof.
+  unfold positional_same_index, positional_lag_index. rewrite shift_index, shift_vals.
+  split; [|reflexivity]. apply combine_map_l_c13.
+Qed.
 
 Lemma positional_index g s : (forall l, length (g l) = length l) ->
   sindex (positional_same_index g s) = sindex s.
-Proof. intro H. apply sindex_eq; [reflexivity|]. apply H. Qed.
+Proof.
+  intro H. unfold positional_same_index. apply map_fst_combine_c13.
+  rewrite H, sindex_length, svals_length. reflexivity.
+Qed.
 
 Lemma take_pos_shift s w k : take_pos (shift_series k s) w = take_pos s w.
-Proof. reflexivity. Qed.
+Proof. unfold take_pos. rewrite shift_vals. reflexivity. Qed.
 
-(* selecting the window observations by LABEL (the pre-fix HampelFilter) is not shift-invariant *)
+(* HISTORICAL (before fix 6500dd2): selecting the window observations by LABEL is not
+   shift-invariant *)
 Lemma take_label_refuted :
   exists s w k, take_label (shift_series k s) w <> take_label s w.
 Proof.
-  exists (0, [1; 2; 3]%Q), [0; 1], 1. vm_compute. discriminate.
+  exists (contiguous 0 [1; 2; 3]%Q), [0; 1], 1. vm_compute. discriminate.
 Qed.
 
 (* ---- non-vacuity ------------------------------------------------------------------------------- *)
 Definition ex_dec : smodel -> Z -> list Q -> list Q := fun _ _ _ => [(-1); 0; 1]%Q.
-Definition ex_y : series := (5, [1; 2; 3; 1; 2; 3; 1]%Q).
+Definition ex_y : series := contiguous 5 [1; 2; 3; 1; 2; 3; 1]%Q.
+(* sp = 3, training starts at 5, one update batch starting at 12, a GAPPED stretch 9, 10, 13, 17 *)
 Lemma ex_nonvacuous :
-  wf (des_fit ex_dec 3 Additive ex_y) /\
-  des_transform (des_after des_update (des_fit ex_dec 3 Additive ex_y) [(12, [9; 9]%Q)])
-                (9, [10; 10; 10; 10]%Q)
-  = (9, [10 - 0; 10 - 1; 10 - -1; 10 - 0]%Q).
-Proof. split; [split; [cbn; lia|reflexivity]|reflexivity]. Qed.
+  wf (des_fit ex_dec 3 Additive ex_y) /\ ex_y <> [] /\
+  des_transform (des_after des_update (des_fit ex_dec 3 Additive ex_y) [contiguous 12 [9; 9]%Q])
+                (combine [9; 10; 13; 17] [10; 10; 10; 10]%Q)
+  = combine [9; 10; 13; 17] [10 - 0; 10 - 1; 10 - 1; 10 - -1]%Q.
+Proof. split; [split; [cbn; lia|reflexivity]|]. split; [discriminate|reflexivity]. Qed.
